@@ -80,7 +80,7 @@ def r_(A, d, t):
     return z3.If(t < d, T.d0(A[t]), 1)
 
 
-def iface_shape_lemmas(U, A, d, hyps, axioms):
+def iface_shape_lemmas(U, A, d, hyps, axioms, Ms=Ms):
     """Induction: rch(Ms, t, d) is an r_t x 1 matrix (downwards from t = d), lch(Ms, t) is a 1 x r_t matrix (upwards from t = 0)."""
     R = lambda t: z3.And(T.rows(X.rch(Ms, t, d)) == r_(A, d, t), T.cols(X.rch(Ms, t, d)) == 1)
     L = lambda t: z3.And(T.rows(X.lch(Ms, t)) == 1, T.cols(X.lch(Ms, t)) == r_(A, d, t))
@@ -94,7 +94,7 @@ def iface_shape_lemmas(U, A, d, hyps, axioms):
             z3.ForAll([t_], z3.Implies(z3.And(0 <= t_, t_ <= d), L(t_)), patterns=[X.lch(Ms, t_)])]
 
 
-def iface_link_lemmas(U, cfg, hyps, shape_facts, axioms):
+def iface_link_lemmas(U, cfg, hyps, shape_facts, axioms, Ms=Ms):
     """lch(Ms, k) @ rch(Ms, k, d) = lch(Ms, d) for every bond (downward induction, one associativity instance per step), and the
     identification of lch with chain / wchain where C01 has such a spec function."""
     A, d = cfg['A'], cfg['d']
@@ -206,6 +206,8 @@ def _interface_unit(U, pcase, with_i, norm, ltr):
         U.post('d+1-vectors', p, R.n == d + 1, axioms=AXI, mode='ematch')
         U.post('no-entry-is-None', hyp, z3.Not(X.OptMat.is_none(R.arr[tt])), axioms=AXI, mode='ematch')
         U.post('vector-k-is-the-scaled-partial-chain', hyp, R.arr[tt] == X.OptMat.some(T.smul(c, spec(tt))), axioms=AXI, mode='ematch')
+        if unit_scale:
+            U.post('vector-k-is-exactly-the-partial-chain', hyp, R.arr[tt] == X.OptMat.some(spec(tt)), axioms=AXI, mode='ematch')
         U.post('scale-is-1' if unit_scale else 'scale-is-positive', hyp, (c == 1) if unit_scale else (c > 0), axioms=AXI, mode='ematch')
         notstart = [tt >= 1] if ltr else [tt < d]
         if norm == 'natural':
@@ -235,3 +237,754 @@ for _pc in ('none', 'modes', 'shared'):
         for _nm in ('linalg', None, 'natural'):
             for _ltr in (False, True):
                 _reg_iface(_pc, _wi, _nm, _ltr)
+
+
+# ----------------------------------------------------------------------------------------------
+# call-site contract of interface(Y, i=i, norm=None, ltr=<literal>)  - proved by the units act_one.interface.P-i.none.rtl / .ltr
+
+def call_interface(ex, st, args, kwargs, node):
+    Ys = st.deref(args[0]) if args else None
+    iv = st.deref(kwargs.get('i', NONE))
+    ltr = kwargs.get('ltr', False)
+    if len(args) != 1 or set(kwargs) - {'i', 'norm', 'ltr', 'P'} or kwargs.get('P', NONE) is not NONE or kwargs.get('norm', 0) is not NONE \
+            or not isinstance(ltr, bool) or not (isinstance(Ys, VSeq) and Ys.tag == 'core') \
+            or not (isinstance(iv, VArr) and iv.ndim == 1 and iv.tag == 'ivec' and iv.t is not None):
+        raise M.Unsupported('interface: only interface(<TT>, i=<index vector>, norm=None, ltr=<literal>) has a call-site contract')
+    A, d, ix = Ys.arr, Ys.n, iv.t
+    ex.oblige(st, 'call-pre', 'interface: well-formed tensor, one index per mode, every index within its mode',
+              z3.And(T.wf(A, d), Z(iv.shape[0]) == d, T.index_ok(ix, A, d)), node)
+    Mq = z3.Const(f'Ms!{A.get_id()}!{ix.get_id()}', X.MS)            # spec constant: the slices M_k = Y[k][:, i_k, :]
+    st.assume(z3.ForAll([k_], Mq[k_] == T.sl(A[k_], ix[k_]), patterns=[Mq[k_]]))     # its definition (not a fact about the code)
+    spec = (lambda t: T.tr(X.lch(Mq, t))) if ltr else (lambda t: X.rch(Mq, t, d))
+    arr = ex.fresh('phi', X.PHI)
+    st.assume(z3.ForAll([t_], z3.Implies(z3.And(0 <= t_, t_ <= d), z3.And(arr[t_] == X.OptMat.some(spec(t_)),
+                                                                         T.rows(X.OptMat.mat(arr[t_])) == r_(A, d, t_))), patterns=[arr[t_]]))
+    st.ghost.setdefault('iface_calls', []).append(dict(A=A, d=d, ix=ix, ltr=ltr, Ms=Mq, arr=arr))
+    return st.alloc(X.mk_optvec(arr, d + 1))
+
+
+M.CALLEES['act_one.interface'] = call_interface
+
+
+# ----------------------------------------------------------------------------------------------
+# act_one.get_and_grad(Y, i, check_phi=False)
+#
+# Postconditions (C01 "element gradients"): with M_k = Y[k][:, i_k, :], L_k = lch(M, k) (1 x r_k, = chain(Y, i, k-1) for k >= 1) and
+# R_k = rch(M, k, d) (r_k x 1):
+#   * value = val(Y, i) (the chained entry);
+#   * grad is a NEW list of d arrays, grad[k] has the shape of Y[k], its mode slice i_k is the outer product L_k^T R_{k+1}^T of the
+#     left and right interface vectors and every other mode slice is zero;
+#   * multilinearity (why this IS the gradient):  L_k @ M_k @ R_{k+1} = [[val(Y, i)]]  for every k, i.e. the entry is the bilinear form
+#     of the slice Y[k][:, i_k, :] with coefficient matrix grad[k][:, i_k, :] (the step from this identity to "partial derivatives" is
+#     the derivative of a bilinear form: cited, not formalised);
+#   * Y and i are untouched, nothing returned aliases them.
+# Loop invariant: cores 0..j-1 of grad carry their slice, the others are still zero (the loop writes through the list: `havoc`).
+# Not covered: check_phi=True (service flag "should be False"; the branch reads an undefined name `val` -> NameError on the pinned
+# tree, outside the subset); rounding.
+
+AXG = T.axioms('shape', 'smulr', 'elem', 'mchain', 'sc1', 'core', 'cslput')
+AXGC = AXG + T.axioms('chain', 'smul')          # only where chain(Y, i, .) is mentioned
+
+
+@unit('act_one.get_and_grad', props=('C01', 'C09'))
+def u_get_and_grad(U):
+    fn = U.func('act_one', 'get_and_grad')
+    st = U.state()
+    Y, A, d = S.tt_param(st, 'Y')
+    ix = z3.Const('ix', T.IDX)
+    iv = VArr((d,), ix, 'ivec', 'i')
+    Mq = z3.Const(f'Ms!{A.get_id()}!{ix.get_id()}', X.MS)
+    msdef = z3.ForAll([k_], Mq[k_] == T.sl(A[k_], ix[k_]), patterns=[Mq[k_]])
+    pre = [T.wf(A, d), T.index_ok(ix, A, d), msdef]
+    zero = lambda t: T.zc(T.d0(A[t]), T.d1(A[t]), T.d2(A[t]))
+    outer = lambda t: T.mm(T.tr(X.lch(Mq, t)), T.tr(X.rch(Mq, t + 1, d)))
+
+    def inv(ex, s, j):
+        g = s.deref(s.vars['grad'])
+        if not (isinstance(g, VSeq) and g.tag == 'core'):
+            raise M.ContractMismatch('get_and_grad(): grad is not a list of cores')
+        return [('one-array-per-core', g.n == d),
+                ('processed-arrays-carry-the-outer-product-in-their-slice',
+                 z3.ForAll([t_], z3.Implies(z3.And(0 <= t_, t_ < j), g.arr[t_] == X.cslput(zero(t_), ix[t_], outer(t_))), patterns=[g.arr[t_]])),
+                ('other-arrays-still-zero', z3.ForAll([t_], z3.Implies(z3.And(j <= t_, t_ < d), g.arr[t_] == zero(t_)), patterns=[g.arr[t_]])),
+                ('arguments-untouched', z3.BoolVal(s.heap[Y.oid].arr is A and s.vars['i'].t is ix))]
+
+    ex = U.executor(fn, loops={0: {'inv': inv, 'havoc': ('grad',)}}, axioms=AXG)
+    ex.mode = 'ematch'
+    ex.core_iface = ex.core_grad = True
+    st.vars.update(Y=Y, i=iv, check_phi=False)
+    res = U.run(ex, st, pre=pre)
+    U.assumed.append('act_one.interface (units act_one.interface.P-i.none.rtl / .ltr)')
+    U.cover('precondition-satisfiable', U.pre, axioms=AXG)
+    # lemmas about the spec functions (as in the interface units), for the matrix sequence of this call
+    shape_facts = iface_shape_lemmas(U, A, d, pre, AXG, Ms=Mq)
+    links = iface_link_lemmas(U, dict(A=A, d=d, ix=ix, with_i=True, W=None), pre, shape_facts, AXG, Ms=Mq)
+    tt, m = z3.Int('tt'), z3.Int('m')
+    for p, o in res:
+        if o.kind != 'return':
+            U.post('no-exception', p, False, axioms=AXG, mode='ematch')
+            continue
+        ok = isinstance(o.value, VTuple) and len(o.value.items) == 2 and M.is_num(o.value.items[0]) and isinstance(o.value.items[1], VRef) \
+            and isinstance(p.deref(o.value.items[1]), VSeq) and p.deref(o.value.items[1]).tag == 'core'
+        U.post('returns-(number, list-of-arrays)', p, z3.BoolVal(ok))
+        if not ok:
+            continue
+        v, gref = o.value.items
+        g = p.deref(gref)
+        calls = p.ghost.get('iface_calls', [])
+        U.post('two-interface-sweeps-over-the-arguments (right-to-left and left-to-right)', p,
+               z3.BoolVal(len(calls) == 2 and all(c['A'] is A and c['ix'] is ix for c in calls) and sorted(c['ltr'] for c in calls) == [False, True]))
+        U.post('fresh-result-and-arguments-untouched', p, z3.BoolVal(gref.oid != Y.oid and p.heap[Y.oid].arr is A and p.vars['i'].t is ix))
+        hyp = list(p.pc) + shape_facts
+        U.post('value-is-the-chained-entry', hyp + links, M.to_real(v) == val(A, ix, d), axioms=AXGC, mode='ematch')
+        U.post('one-gradient-array-per-core', p, g.n == d, axioms=AXG, mode='ematch')
+        hk = hyp + [0 <= tt, tt < d]
+        U.post('gradient-array-has-the-shape-of-its-core', hk,
+               z3.And(T.d0(g.arr[tt]) == T.d0(A[tt]), T.d1(g.arr[tt]) == T.d1(A[tt]), T.d2(g.arr[tt]) == T.d2(A[tt])), axioms=AXG, mode='ematch')
+        U.post('slice-i_k-is-the-outer-product-of-the-left-and-right-interface-vectors', hk, T.sl(g.arr[tt], ix[tt]) == outer(tt), axioms=AXG, mode='ematch')
+        U.post('every-other-slice-is-zero', hk + [0 <= m, m < T.d1(A[tt]), m != ix[tt]],
+               T.sl(g.arr[tt], m) == T.zeros(T.d0(A[tt]), T.d2(A[tt])), axioms=AXG, mode='ematch')
+        U.post('left-interface-vector-is-the-left-partial-chain', hk + links + [tt >= 1], X.lch(Mq, tt) == T.chain(A, ix, tt - 1), axioms=AXGC, mode='ematch')
+        U.post('multilinearity: left-interface @ slice @ right-interface is the entry', hk + links,
+               T.mm(T.mm(X.lch(Mq, tt), T.sl(A[tt], ix[tt])), X.rch(Mq, tt + 1, d)) == T.chain(A, ix, d - 1), axioms=AXGC, mode='ematch',
+               extra=[X.lch(Mq, tt + 1) == T.mm(X.lch(Mq, tt), Mq[tt])])
+        U.canary('canary-gradient-slice-is-zero', hk, T.sl(g.arr[tt], ix[tt]) == T.zeros(T.d0(A[tt]), T.d2(A[tt])), axioms=AXG)
+        U.canary('canary-value-is-zero', hyp + links, M.to_real(v) == 0, axioms=AXGC)
+    U.lemmas.append('derivative of a bilinear form: d(L M R)/dM[a,b] = L[a] R[b] (cited; the multilinearity identity is proved)')
+
+
+# ----------------------------------------------------------------------------------------------
+# svd.svd_matrix / transformation.full_matrix: the bit-interleaving permutation and its inverse (C03: "the matrix variant after its
+# index interleaving, which full_matrix inverts")
+#
+# svd_matrix(Y_full, e, r) for a 2^q x 2^q matrix (q >= 2: svd needs two modes): q = int(log2(rows)) IS the exponent; the matrix is
+# reshaped (Fortran order) to 2q axes of size 2 - axes 0..q-1 are the row bits (least significant first), axes q..2q-1 the column bits -,
+# transposed with
+#       prm[2k] = k,  prm[2k+1] = q + k      (0 <= k < q; a permutation of the 2q axes),
+# so that row bit k and column bit k become neighbours, and reshaped (Fortran order) to q modes of size 4 (mode index i_k + 2 j_k);
+# exactly that array goes to svd(., e, r) once, with the caller's e and r, and svd's result is returned.
+# full_matrix(Y, order='F'): full(Y) is reshaped (order) to 2q axes of size 2, transposed with
+#       prm'[k] = 2k,  prm'[q+k] = 2k + 1    (0 <= k < q),
+# and reshaped (Fortran order) to 2^q x 2^q.
+# Lemma over the two contracts: prm[prm'[b]] = b and prm'[prm[a]] = a for all axes: the two transpositions are inverse to each other
+# (with the default order='F' the reshapes are inverse as well, so full_matrix(svd_matrix(A)) = A up to the truncation of svd).
+# Level: the permutation vectors element-wise and the data flow (which array is reshaped / transposed / handed on); the element-level
+# meaning of reshape / transpose for arrays of symbolic dimension and the size compatibility of the reshapes are NOT modelled
+# (bounded suite C03: exhaustive q <= 8 on integer-coded matrices).
+
+AXP = T.axioms('pow2', 'pow2r', 'pow2link')
+IA_ = z3.ArraySort(z3.IntSort(), z3.IntSort())
+
+
+def prm_svd_matrix(prm, q):
+    """prm[2k] = k, prm[2k+1] = q + k, stated for a position m: prm[m] = m div 2 (+ q for odd m)."""
+    return lambda m: prm[m] == z3.If(m % 2 == 0, m / 2, q + m / 2)
+
+
+def prm_full_matrix(prm, q):
+    """prm'[k] = 2k, prm'[q+k] = 2k+1, stated for a position m."""
+    return lambda m: prm[m] == z3.If(m < q, 2 * m, 2 * (m - q) + 1)
+
+
+def _src(v):
+    return getattr(v, 'src', None)
+
+
+@unit('svd.svd_matrix', props=('C03',))
+def u_svd_matrix(U):
+    fn = U.func('svd', 'svd_matrix')
+    st = U.state()
+    q0, n = z3.Int('q'), z3.Int('n')
+    e, r = z3.Real('e'), z3.Real('r')
+    Yf = VArr((n, n), None, None)
+    calls = []
+
+    def c_svd(ex, s, a, kw, node):
+        """svd(Z, e, r): call-site contract of unit svd.svd (d cores, well-formed, mode sizes of the array, ranks within the cap)."""
+        if len(a) != 3 or kw or not isinstance(a[0], M.VNd):
+            raise M.ContractMismatch('svd_matrix(): svd is not called as svd(<dense array>, e, r)')
+        sh = s.deref(a[0].shape_ref)
+        ee, rr = ex.need_num(s, a[1], node), ex.need_num(s, a[2], node)
+        ex.oblige(s, 'call-pre', 'svd: at least two modes, all mode sizes >= 1, e >= 0, r >= 0',
+                  z3.And(sh.n >= 2, Z(ee) >= 0, Z(rr) >= 0, z3.ForAll([t_], z3.Implies(z3.And(0 <= t_, t_ < sh.n), sh.arr[t_] >= 1), patterns=[sh.arr[t_]])), node)
+        R = ex.fresh('Ysvd', T.TT)
+        cap = z3.ToInt(M.to_real(rr))
+        s.assume(T.wf(R, sh.n), z3.ForAll([t_], z3.Implies(z3.And(0 <= t_, t_ < sh.n), T.d1(R[t_]) == sh.arr[t_]), patterns=[R[t_]]),
+                 z3.ForAll([t_], z3.Implies(z3.And(0 <= t_, t_ < sh.n - 1), T.d2(R[t_]) <= z3.If(cap >= 1, cap, 1)), patterns=[R[t_]]))
+        s.ghost.setdefault('svd_calls', []).append(dict(Z=a[0], shape=sh, e=ee, r=rr, R=R))
+        return s.alloc(VSeq(R, sh.n, M.mk_core, 'core'))
+
+    ex = U.executor(fn, callees={'svd.svd': c_svd}, axioms=AXP)
+    ex.core_perm = True
+    st.vars.update(Y_full=Yf, e=e, r=r)
+    res = U.run(ex, st, pre=[q0 >= 2, n == T.pow2(q0), e >= 0, r >= 0])
+    U.assumed.append('svd.svd (unit svd.svd)')
+    U.cover('precondition-satisfiable', U.pre, axioms=AXP)
+    m, a_, b_ = z3.Ints('m a b')
+    for p, o in res:
+        if o.kind != 'return':
+            U.post('no-exception', p, False, axioms=AXP)
+            continue
+        cs = p.ghost.get('svd_calls', [])
+        ok = len(cs) == 1 and isinstance(o.value, VRef) and p.deref(o.value).arr is cs[0]['R']
+        U.post('one-call-of-svd-and-its-result-is-returned', p, z3.BoolVal(ok))
+        if not ok:
+            continue
+        c = cs[0]
+        q = Z(p.vars['q'])
+        U.post('thresholds-of-the-caller-are-handed-on', p, z3.And(M.to_real(c['e']) == e, M.to_real(c['r']) == r), axioms=AXP)
+        # int(log2(2^q0)) = q0: instances of the characterisation of log2 against powers of two at k = q0 and k = q0 + 1
+        x = z3.ToReal(T.pow2(q0))
+        hints = [T.pow2r(z3.ToReal(q0)) == z3.ToReal(T.pow2(q0)), T.pow2r(z3.ToReal(q0 + 1)) == 2 * T.pow2r(z3.ToReal(q0)), T.pow2(q0) >= 1,
+                 (z3.ToReal(q0) <= T.log2(x)) == (T.pow2r(z3.ToReal(q0)) <= x), (z3.ToReal(q0 + 1) <= T.log2(x)) == (T.pow2r(z3.ToReal(q0 + 1)) <= x)]
+        U.post('q-is-the-exponent-of-the-matrix-size', list(p.pc) + hints, q == q0, qf=True)
+        Zs = c['Z']
+        s2 = _src(Zs)
+        s1 = _src(s2[2]) if s2 and s2[0] == 'reshape' else None
+        s0 = _src(s1[1]) if s1 and s1[0] == 'transpose' else None
+        flow = bool(s2 and s2[:2] == ('reshape', 'F') and s1 and s0 and s0[:2] == ('reshape', 'F') and s0[2] is Yf)
+        U.post('svd-receives: F-reshape to q modes <- transpose(prm) <- F-reshape to 2q axes <- the argument', p, z3.BoolVal(flow))
+        if not flow:
+            continue
+        prm = s1[2]
+        sh0 = p.deref(s1[1].shape_ref)
+        hyp = list(p.pc)
+        U.post('first-reshape-gives-2q-axes-of-size-2', hyp + [0 <= m, m < 2 * q], z3.And(sh0.n == 2 * q, sh0.arr[m] == 2), axioms=AXP)
+        U.post('modes-handed-to-svd: q modes of size 4', hyp + [0 <= m, m < q], z3.And(c['shape'].n == q, c['shape'].arr[m] == 4), axioms=AXP)
+        U.post('permutation-has-2q-entries', p, Z(prm.shape[0]) == 2 * q, axioms=AXP)
+        U.post('permutation: prm[2k] = k and prm[2k+1] = q + k', hyp + [0 <= m, m < q], z3.And(prm.t[2 * m] == m, prm.t[2 * m + 1] == q + m), axioms=AXP)
+        U.post('permutation (position form): prm[m] = m div 2 (+ q for odd m)', hyp + [0 <= m, m < 2 * q], prm_svd_matrix(prm.t, q)(m), axioms=AXP)
+        Rr = p.deref(o.value)
+        U.post('result: well-formed QTT tensor with q cores of mode size 4', hyp + [0 <= m, m < q],
+               z3.And(Rr.n == q, T.wf(Rr.arr, q), T.d1(Rr.arr[m]) == 4), axioms=AXP)
+        U.canary('canary-permutation-is-the-identity', hyp + [0 <= m, m < 2 * q], prm.t[m] == m, axioms=AXP)
+
+
+@unit('transformation.full_matrix', props=('C03',))
+def u_full_matrix(U):
+    fn = U.func('transformation', 'full_matrix')
+    st = U.state()
+    Y, A, q = S.tt_param(st, 'Y', z3.Int('q'))
+
+    def c_full(ex, s, a, kw, node):
+        """full(Y): a dense array (shape proved for d = 2, 3 by transformation.full.d2 / .d3; nothing about it is used here)."""
+        Ys = s.deref(a[0]) if len(a) == 1 and not kw else None
+        if not (isinstance(Ys, VSeq) and Ys.tag == 'core'):
+            raise M.ContractMismatch('full_matrix(): full is not called as full(<TT>)')
+        ex.oblige(s, 'call-pre', 'full: well-formed tensor', T.wf(Ys.arr, Ys.n), node)
+        out = M.VNd(s.alloc(VSeq(ex.fresh('fullshape', IA_), Ys.n, lambda t: t, tag='int')))
+        out.src = ('full', Ys.arr)
+        return out
+
+    m = z3.Int('m')
+    for order in ('F', 'C'):
+        ex = U.executor(fn, callees={'transformation.full': c_full}, axioms=AXP)
+        ex.core_perm = True
+        s0 = st.copy()
+        s0.vars.update(Y=Y, order=VStr(order))
+        res = U.run(ex, s0, pre=[T.wf(A, q)])
+        for p, o in res:
+            if o.kind != 'return':
+                U.post('no-exception', p, False, axioms=AXP)
+                continue
+            Rv = o.value
+            s3 = _src(Rv)
+            s2 = _src(s3[2]) if s3 and s3[0] == 'reshape' else None
+            s1 = _src(s2[1]) if s2 and s2[0] == 'transpose' else None
+            flow = bool(isinstance(Rv, VArr) and Rv.ndim == 2 and s3 and s3[:2] == ('reshape', 'F') and s2 and s1 and s1[:2] == ('reshape', order)
+                        and _src(s1[2]) is not None and _src(s1[2])[0] == 'full' and _src(s1[2])[1] is A)
+            U.post(f'order={order}: result: F-reshape to a matrix <- transpose(prm) <- reshape(order) to 2q axes <- full(Y)', p, z3.BoolVal(flow))
+            if not flow:
+                continue
+            prm = s2[2]
+            sh1 = p.deref(s2[1].shape_ref)
+            hyp = list(p.pc)
+            U.post('result-is-a-2^q-x-2^q-matrix', p, z3.And(Z(Rv.shape[0]) == T.pow2(q), Z(Rv.shape[1]) == T.pow2(q)), axioms=AXP)
+            U.post('first-reshape-gives-2q-axes-of-size-2', hyp + [0 <= m, m < 2 * q], z3.And(sh1.n == 2 * q, sh1.arr[m] == 2), axioms=AXP)
+            U.post('permutation-has-2q-entries', p, Z(prm.shape[0]) == 2 * q, axioms=AXP)
+            U.post("permutation: prm'[k] = 2k and prm'[q+k] = 2k+1", hyp + [0 <= m, m < q], z3.And(prm.t[m] == 2 * m, prm.t[q + m] == 2 * m + 1), axioms=AXP)
+            U.post("permutation (position form)", hyp + [0 <= m, m < 2 * q], prm_full_matrix(prm.t, q)(m), axioms=AXP)
+            U.post('argument-untouched', p, z3.BoolVal(p.heap[Y.oid].arr is A))
+            U.canary('canary-permutation-is-the-identity', hyp + [0 <= m, m < 2 * q], prm.t[m] == m, axioms=AXP)
+    U.cover('precondition-satisfiable', [T.wf(A, q)], axioms=AXP)
+
+
+@unit('svd.svd_matrix.full_matrix_inverts', props=('C03',))
+def u_perm_inverse(U):
+    """Lemma over the two contracts (no code is executed here): any two integer vectors that satisfy the element-wise statements
+    proved by the units svd.svd_matrix and transformation.full_matrix are permutations of range(2q) and inverse to each other."""
+    q = z3.Int('q')
+    P1, P2 = z3.Const('prm', IA_), z3.Const('prm2', IA_)
+    a = z3.Int('a')
+    f1, f2 = prm_svd_matrix(P1, q), prm_full_matrix(P2, q)
+    inr = lambda x: z3.And(0 <= x, x < 2 * q)
+    hyp = [q >= 1, inr(a)]
+    U.lemma('svd_matrix-permutation-stays-within-the-axes', hyp + [f1(a)], inr(P1[a]), qf=True)
+    U.lemma('full_matrix-permutation-stays-within-the-axes', hyp + [f2(a)], inr(P2[a]), qf=True)
+    U.lemma('full_matrix-after-svd_matrix: prm[prm2[a]] = a', hyp + [f2(a), f1(P2[a])], P1[P2[a]] == a, qf=True)
+    U.lemma('svd_matrix-after-full_matrix: prm2[prm[a]] = a', hyp + [f1(a), f2(P1[a])], P2[P1[a]] == a, qf=True)
+    U.canary('canary-the-two-permutations-are-equal', hyp + [f1(a), f2(a)], P1[a] == P2[a], qf=True)
+    U.cover('hypotheses-satisfiable', hyp + [f1(a), f2(a), f2(P1[a]), f1(P2[a])])
+
+
+# ----------------------------------------------------------------------------------------------
+# core.core_dot(G, R, ltr=True): the core times a matrix on its right (ltr) / left (not ltr) bond
+#
+#   ltr:      result shape (r1, n, cols R),  unfL(result) = unfL(G) @ R,  every mode slice  result[:, j, :] = G[:, j, :] @ R
+#   not ltr:  result shape (rows R, n, r2),  unfR(result) = R @ unfR(G),  every mode slice  result[:, j, :] = R @ G[:, j, :]
+# A number R is the 1 x 1 matrix [[R]] (requires the bond to have size 1).  The result is a new array (reshape of a product), G and R are
+# untouched.  Precondition: all dimensions of G >= 1, R has as many rows as G's right bond (ltr) / columns as G's left bond.
+# This is the step that pushes a weight matrix into the neighbouring core (C04 mechanism; used by the cross / als sweeps).
+
+AXC = T.axioms('shape', 'mulI', 'unfold', 'elem', 'smulr', 'sc1', 'trtr')
+jj = z3.Int('jj')
+
+
+def core_dot_post(g, rm, h, ltr):
+    """What the units core.core_dot.* prove about H = core_dot(G, R, ltr) (g, rm, h: Core / Mat / Core terms)."""
+    if ltr:
+        return {'shape': z3.And(T.d0(h) == T.d0(g), T.d1(h) == T.d1(g), T.d2(h) == T.cols(rm)),
+                'unfolding': T.unfL(h) == T.mm(T.unfL(g), rm),
+                'slices': z3.ForAll([jj], z3.Implies(z3.And(0 <= jj, jj < T.d1(g)), T.sl(h, jj) == T.mm(T.sl(g, jj), rm)), patterns=[T.sl(h, jj)])}
+    return {'shape': z3.And(T.d0(h) == T.rows(rm), T.d1(h) == T.d1(g), T.d2(h) == T.d2(g)),
+            'unfolding': T.unfR(h) == T.mm(rm, T.unfR(g)),
+            'slices': z3.ForAll([jj], z3.Implies(z3.And(0 <= jj, jj < T.d1(g)), T.sl(h, jj) == T.mm(rm, T.sl(g, jj))), patterns=[T.sl(h, jj)])}
+
+
+def core_dot_pre(g, rm, ltr):
+    return z3.And(T.d0(g) >= 1, T.d1(g) >= 1, T.d2(g) >= 1, T.cols(rm) >= 1, T.rows(rm) >= 1, (T.rows(rm) == T.d2(g)) if ltr else (T.cols(rm) == T.d0(g)))
+
+
+def _core_dot_unit(U, ltr, number):
+    fn = U.func('core', 'core_dot')
+    ex = U.executor(fn, axioms=AXC)
+    ex.mode = 'ematch'
+    ex.core_ops = True
+    st = U.state()
+    G, g = S.core_param('G')
+    if number:
+        c = z3.Real('c')
+        Rv, rm = c, T.sc(c)
+        pre = [T.d0(g) >= 1, T.d1(g) >= 1, T.d2(g) >= 1, (T.d2(g) if ltr else T.d0(g)) == 1]
+    else:
+        Rv, rm = S.mat_param('R')
+        pre = [core_dot_pre(g, rm, ltr)]
+    st.vars.update(G=G, R=Rv, ltr=ltr)
+    res = U.run(ex, st, pre=pre)
+    U.cover('precondition-satisfiable', U.pre, axioms=AXC)
+    for p, o in res:
+        if o.kind != 'return':
+            U.post('no-exception', p, False, axioms=AXC, mode='ematch')
+            continue
+        H = p.deref(o.value)
+        ok = isinstance(H, VArr) and H.ndim == 3 and H.tag == 'core' and H.t is not None
+        U.post('returns-a-3-D-array-with-a-denotation', p, z3.BoolVal(ok))
+        if not ok:
+            continue
+        U.post('arguments-untouched-and-result-is-a-new-array', p, z3.BoolVal((number or p.vars['R'] is Rv) and H is not G and not H.t.eq(g)))
+        post = core_dot_post(g, rm, H.t, ltr)
+        U.post('shape: the contracted bond is replaced by the free dimension of R', p, post['shape'], axioms=AXC, mode='ematch')
+        U.post('unfolding-is-the-product-with-R', p, post['unfolding'], axioms=AXC, mode='ematch')
+        U.post('every-mode-slice-is-multiplied-by-R', list(p.pc) + [0 <= jj, jj < T.d1(g)],
+               T.sl(H.t, jj) == (T.mm(T.sl(g, jj), rm) if ltr else T.mm(rm, T.sl(g, jj))), axioms=AXC, mode='ematch')
+        if number:
+            U.post('a-number-scales-every-slice', list(p.pc) + [0 <= jj, jj < T.d1(g), T.rows(T.sl(g, jj)) == T.d0(g), T.cols(T.sl(g, jj)) == T.d2(g)],
+                   z3.Implies(c == 1, T.sl(H.t, jj) == T.sl(g, jj)), axioms=AXC, mode='ematch')
+        U.canary('canary-slices-unchanged', list(p.pc) + [0 <= jj, jj < T.d1(g)], T.sl(H.t, jj) == T.sl(g, jj), axioms=AXC)
+
+
+for _ltr in (True, False):
+    for _num in (False, True):
+        def _mk(ltr=_ltr, num=_num):
+            @unit('core.core_dot.' + ('ltr' if ltr else 'rtl') + ('.number' if num else ''), props=('C04', 'C09'))
+            def u(U):
+                _core_dot_unit(U, ltr, num)
+        _mk()
+
+
+def call_core_dot(ex, st, args, kwargs, node):
+    """core_dot(G, R, ltr) with a matrix R and a literal ltr: postcondition of the units core.core_dot.ltr / .rtl."""
+    Gv, Rv = st.deref(args[0]), st.deref(args[1]) if len(args) > 1 else None
+    ltr = args[2] if len(args) > 2 else kwargs.get('ltr', True)
+    if not isinstance(ltr, bool) or not (isinstance(Gv, VArr) and Gv.tag == 'core' and Gv.t is not None) \
+            or not (isinstance(Rv, VArr) and Rv.tag == 'mat' and Rv.t is not None):
+        raise M.Unsupported('core_dot: only core_dot(<core>, <matrix>, <literal ltr>) has a call-site contract')
+    ex.oblige(st, 'call-pre', 'core_dot: positive dimensions and matching bond', core_dot_pre(Gv.t, Rv.t, ltr), node)
+    h = ex.fresh('Hdot', T.Core)
+    for f in core_dot_post(Gv.t, Rv.t, h, ltr).values():
+        st.assume(f)
+    st.ghost.setdefault('core_dot_calls', []).append(dict(G=Gv.t, R=Rv.t, ltr=ltr, H=h))
+    return M.mk_core(h)
+
+
+M.CALLEES['core.core_dot'] = call_core_dot
+
+
+# ----------------------------------------------------------------------------------------------
+# core.core_dot_inv(G, R, ltr=True): the core times the INVERSE of a square matrix on its right / left bond
+#
+#   ltr:      result has the shape of G and  unfL(result) @ R = unfL(G),   result[:, j, :] @ R = G[:, j, :]
+#   not ltr:  result has the shape of G and  R @ unfR(result) = unfR(G),   R @ result[:, j, :] = G[:, j, :]
+# i.e. core_dot(core_dot_inv(G, R), R) = G - the defining equation of the solve; no inverse is formed.
+# Precondition: R square of the size of the bond and non-singular (np.linalg.solve raises LinAlgError otherwise).
+# Not covered: conditioning / rounding of the solve (A-LAPACK).
+
+def _core_dot_inv_unit(U, ltr):
+    fn = U.func('core', 'core_dot_inv')
+    ex = U.executor(fn, axioms=AXC)
+    ex.mode = 'ematch'
+    ex.core_ops = True
+    st = U.state()
+    G, g = S.core_param('G')
+    Rv, rm = S.mat_param('R')
+    bond = T.d2(g) if ltr else T.d0(g)
+    st.vars.update(G=G, R=Rv, ltr=ltr)
+    res = U.run(ex, st, pre=[T.d0(g) >= 1, T.d1(g) >= 1, T.d2(g) >= 1, T.rows(rm) == bond, T.cols(rm) == bond, X.nonsing(rm)])
+    U.cover('precondition-satisfiable', U.pre, axioms=AXC)
+    for p, o in res:
+        if o.kind != 'return':
+            U.post('no-exception', p, False, axioms=AXC, mode='ematch')
+            continue
+        H = p.deref(o.value)
+        ok = isinstance(H, VArr) and H.ndim == 3 and H.tag == 'core' and H.t is not None
+        U.post('returns-a-3-D-array-with-a-denotation', p, z3.BoolVal(ok))
+        if not ok:
+            continue
+        h = H.t
+        hint = [T.tr(T.tr(rm)) == rm]                     # instance of 'trtr'
+        U.post('shape-of-the-argument', p, z3.And(T.d0(h) == T.d0(g), T.d1(h) == T.d1(g), T.d2(h) == T.d2(g)), axioms=AXC, mode='ematch')
+        U.post('unfolding-times-R-is-the-unfolding-of-the-argument', p,
+               (T.mm(T.unfL(h), rm) == T.unfL(g)) if ltr else (T.mm(rm, T.unfR(h)) == T.unfR(g)), axioms=AXC, mode='ematch', extra=hint)
+        # instance of 'unfold' (a block of rows / a stride of columns of a product) at the unfolding of the result
+        if ltr:
+            blk = z3.Implies(T.cols(T.unfL(h)) == T.rows(rm), T.rowblk(T.mm(T.unfL(h), rm), jj, T.d0(g)) == T.mm(T.rowblk(T.unfL(h), jj, T.d0(g)), rm))
+        else:
+            blk = z3.Implies(T.cols(rm) == T.rows(T.unfR(h)), T.colsel(T.mm(rm, T.unfR(h)), jj, T.d1(g)) == T.mm(rm, T.colsel(T.unfR(h), jj, T.d1(g))))
+        U.post('every-mode-slice-times-R-is-the-slice-of-the-argument', list(p.pc) + [0 <= jj, jj < T.d1(g)],
+               (T.mm(T.sl(h, jj), rm) == T.sl(g, jj)) if ltr else (T.mm(rm, T.sl(h, jj)) == T.sl(g, jj)), axioms=AXC, mode='ematch', extra=hint + [blk])
+        U.post('one-linear-solve-with-R (transposed system for ltr)', p,
+               z3.BoolVal(len(p.ghost.get('solves', [])) == 1 and p.ghost['solves'][0][0].eq(T.tr(rm) if ltr else rm)))
+        U.post('arguments-untouched', p, z3.BoolVal(p.vars['R'] is Rv))
+        U.canary('canary-result-is-the-argument', list(p.pc) + [0 <= jj, jj < T.d1(g)], T.sl(h, jj) == T.sl(g, jj), axioms=AXC)
+
+
+@unit('core.core_dot_inv.ltr', props=('C04', 'C09'))
+def u_core_dot_inv_l(U):
+    _core_dot_inv_unit(U, True)
+
+
+@unit('core.core_dot_inv.rtl', props=('C04', 'C09'))
+def u_core_dot_inv_r(U):
+    _core_dot_inv_unit(U, False)
+
+
+# ----------------------------------------------------------------------------------------------
+# core.core_dot_maxvol(G, R, ind=None, ltr=True): H = core_dot(G, R, ltr), then the maxvol rows of the other unfolding
+#
+#   ltr:      A = unfR(H) (r1 x n*q, q = cols R);  ind = _maxvol(A^T)[0] unless given;  returns (A[:, ind], ind)
+#   not ltr:  A = unfL(H) (q*n x r2, q = rows R);  ind = _maxvol(A)[0]  unless given;   returns (A[ind, :], ind)
+# Postconditions (shape / data-flow level; H by the contract of core_dot: every slice of G multiplied by R):
+#   the returned matrix is the selection of the columns (rows) `ind` of that unfolding, in that order, of shape r1 x len(ind)
+#   (len(ind) x r2); without a given ind exactly one call of _maxvol on the (transposed) unfolding supplies it: valid positions,
+#   min(n*q, r1) (min(q*n, r2)) of them; a given ind is handed back as it is and _maxvol is not called.
+# Precondition: as core_dot; a given ind has entries within the unfolding (NumPy raises IndexError otherwise).
+# Not covered: WHICH rows maxvol picks (C08), values of the selected matrix beyond "columns of unfR(H)".
+
+AXV = T.axioms('shape', 'mulI', 'unfold')
+
+
+def _core_dot_maxvol_unit(U, ltr, given):
+    fn = U.func('core', 'core_dot_maxvol')
+    st = U.state()
+    G, g = S.core_param('G')
+    Rv, rm = S.mat_param('R')
+    mv_calls = []
+
+    def c_maxvol(ex, s, a, kw, node):
+        out = M.CALLEES['utils._maxvol'](ex, s, a, kw, node)
+        s.ghost['mv_calls'] = s.ghost.get('mv_calls', []) + [(s.deref(a[0]), len(a), dict(kw), out)]
+        return out
+
+    ex = U.executor(fn, axioms=AXV, callees={'utils._maxvol': c_maxvol})
+    ex.mode = 'ematch'
+    ex.core_ops = True
+    pre = [core_dot_pre(g, rm, ltr)]
+    q = T.cols(rm) if ltr else T.rows(rm)
+    long_dim = T.mulI(T.d1(g), q)                # n*q: the number of columns (rows) of the unfolding that is searched
+    if given:
+        iarr, ilen = z3.Const('ind', IA_), z3.Int('nind')
+        ind = VArr((ilen,), iarr, 'ivec', 'i')
+        pre += [ilen >= 0, z3.ForAll([k_], z3.Implies(z3.And(0 <= k_, k_ < ilen), z3.And(0 <= iarr[k_], iarr[k_] < long_dim)), patterns=[iarr[k_]])]
+    else:
+        ind = NONE
+    st.vars.update(G=G, R=Rv, ind=ind, ltr=ltr)
+    res = U.run(ex, st, pre=pre)
+    U.assumed += ['core.core_dot (units core.core_dot.ltr / .rtl)', 'utils._maxvol (unit utils._maxvol)']
+    U.cover('precondition-satisfiable', U.pre, axioms=AXV)
+    for p, o in res:
+        if o.kind != 'return':
+            U.post('no-exception', p, False, axioms=AXV, mode='ematch')
+            continue
+        ok = isinstance(o.value, VTuple) and len(o.value.items) == 2 and isinstance(p.deref(o.value.items[0]), VArr) and isinstance(p.deref(o.value.items[1]), VArr)
+        U.post('returns-(matrix, index-vector)', p, z3.BoolVal(ok))
+        if not ok:
+            continue
+        Mx, iv = [p.deref(x) for x in o.value.items]
+        dots, mvs = p.ghost.get('core_dot_calls', []), p.ghost.get('mv_calls', [])
+        ok = len(dots) == 1 and dots[0]['G'].eq(g) and dots[0]['R'].eq(rm) and dots[0]['ltr'] is ltr
+        U.post('one-call-of-core_dot-with-the-arguments-and-the-direction', p, z3.BoolVal(ok))
+        if not ok:
+            continue
+        h = dots[0]['H']
+        unf = T.unfR(h) if ltr else T.unfL(h)
+        src = _src(Mx)
+        U.post('matrix-is-the-selection-of-the-columns(ltr)/rows-ind-of-the-other-unfolding-of-core_dot(G,R)', p,
+               z3.BoolVal(bool(src) and src[0] == ('cols' if ltr else 'rows') and src[1].t is not None and src[1].t.eq(unf) and src[2] is iv))
+        free = T.d0(g) if ltr else T.d2(g)
+        U.post('matrix-shape', p, z3.And(Z(Mx.shape[0 if ltr else 1]) == free, Z(Mx.shape[1 if ltr else 0]) == Z(iv.shape[0])), axioms=AXV, mode='ematch')
+        if given:
+            U.post('given-index-vector-is-handed-back-and-maxvol-is-not-called', p, z3.BoolVal(iv is ind and not mvs))
+        else:
+            ok = len(mvs) == 1 and mvs[0][1] == 1 and not mvs[0][2] and mvs[0][0].t is not None and mvs[0][0].t.eq(T.tr(unf) if ltr else unf) \
+                and iv is p.deref(mvs[0][3].items[0])
+            U.post('index-vector-comes-from-one-default-call-of-_maxvol-on-the-unfolding (transposed for ltr)', p, z3.BoolVal(ok))
+            hyp = list(p.pc) + [0 <= kk, kk < Z(iv.shape[0])]
+            U.post('positions-are-valid', hyp, z3.And(0 <= iv.t[kk], iv.t[kk] < long_dim), axioms=AXV, mode='ematch')
+            U.post('number-of-positions-is-min(long, free)', p, Z(iv.shape[0]) == z3.If(long_dim <= free, long_dim, free), axioms=AXV, mode='ematch')
+        U.post('arguments-untouched', p, z3.BoolVal(p.vars['R'] is Rv))
+        U.canary('canary-no-position-is-selected', p, Z(iv.shape[0]) == 0, axioms=AXV)
+
+
+for _ltr in (True, False):
+    for _gv in (False, True):
+        def _mk(ltr=_ltr, gv=_gv):
+            @unit('core.core_dot_maxvol.' + ('ltr' if ltr else 'rtl') + ('.ind' if gv else ''), props=('C04', 'C09'))
+            def u(U):
+                _core_dot_maxvol_unit(U, ltr, gv)
+        _mk()
+
+
+# ----------------------------------------------------------------------------------------------
+# core.core_qr_rand(G, m, ltr=True, seed=None): append m random columns to the unfolding and return the Q factor as a core
+#
+#   ltr:      Q, R = qr([unfL(G) | N]),  N an (r1*n) x m normal draw;  result = Q folded to (r1, n, k),  k = min(r1*n, r2 + m);
+#             unfL(result) has orthonormal columns and  unfL(result) @ R = [unfL(G) | N]
+#   not ltr:  Q, R = qr([unfR(G)^T | N]),  N an (n*r2) x m draw;  result = Q^T folded to (k, n, r2),  k = min(n*r2, r1 + m);
+#             unfR(result) has orthonormal rows and  R^T @ unfR(result) = [unfR(G)^T | N]^T  (stated as (unfR(result))^T @ R = [..])
+# C10: the seed goes through _rand exactly once, a Generator object is used as it is, and the ONLY draw is that one normal matrix,
+# taken from that generator.  Precondition: dimensions >= 1, m >= 0 integer.
+# Not covered: the distribution of the draw; rank deficiency of the stacked matrix (QR is still defined: A-LAPACK).
+
+AXQ = T.axioms('shape', 'mulI', 'unfold', 'trtr')
+
+
+def _core_qr_rand_unit(U, ltr, skind):
+    from contracts.transformation import orthL, orthR, _factors
+    from contracts.misc import logging_rand
+    from ttvc import rnd as RN
+    fn = U.func('core', 'core_qr_rand')
+    ex = U.executor(fn, axioms=AXQ, callees={'utils._rand': logging_rand})
+    ex.mode = 'ematch'
+    ex.core_ops = True
+    st = U.state()
+    G, g = S.core_param('G')
+    m = z3.Int('m')
+    seed = {'int': z3.Int('seed'), 'none': NONE, 'generator': RN.VGen('caller')}[skind]
+    st.vars.update(G=G, m=m, ltr=ltr, seed=seed)
+    res = U.run(ex, st, pre=[T.d0(g) >= 1, T.d1(g) >= 1, T.d2(g) >= 1, m >= 0])
+    U.assumed.append('utils._rand (unit utils._rand)')
+    U.cover('precondition-satisfiable', U.pre, axioms=AXQ)
+    for p, o in res:
+        if o.kind != 'return':
+            U.post('no-exception', p, False, axioms=AXQ, mode='ematch')
+            continue
+        H = p.deref(o.value)
+        ok = isinstance(H, VArr) and H.ndim == 3 and H.tag == 'core' and H.t is not None
+        U.post('returns-a-3-D-array-with-a-denotation', p, z3.BoolVal(ok))
+        if not ok:
+            continue
+        h = H.t
+        rc, draws = p.ghost.get('randcalls', []), p.ghost.get('core_draws', [])
+        U.post('seed-goes-through-_rand-exactly-once', p, z3.BoolVal(len(rc) == 1 and rc[0][0] is seed))
+        U.post('exactly-one-draw-and-no-other-use-of-randomness', p, z3.BoolVal(len(draws) == 1 and p.ghost.get('draws', 0) == 0 and not p.ghost.get('drawlog')))
+        if len(rc) != 1 or len(draws) != 1:
+            continue
+        gen, shp, noise = draws[0]
+        U.post('the-draw-comes-from-the-generator-returned-by-_rand', p, z3.BoolVal(gen is rc[0][1]))
+        if skind == 'generator':
+            U.post('a-generator-object-is-used-as-it-is', p, z3.BoolVal(gen is seed))
+        long_dim = T.mulI(T.d0(g), T.d1(g)) if ltr else T.mulI(T.d1(g), T.d2(g))
+        other = T.d2(g) if ltr else T.d0(g)
+        U.post('the-draw-has-one-row-per-row-of-the-unfolding-and-m-columns', p, z3.And(Z(shp[0]) == long_dim, Z(shp[1]) == m), axioms=AXQ, mode='ematch')
+        k = z3.If(long_dim <= other + m, long_dim, other + m)
+        if ltr:
+            U.post('shape: (r1, n, min(r1*n, r2+m))', p, z3.And(T.d0(h) == T.d0(g), T.d1(h) == T.d1(g), T.d2(h) == k), axioms=AXQ, mode='ematch')
+            U.post('left-unfolding-has-orthonormal-columns', p, orthL(h), axioms=AXQ, mode='ematch')
+        else:
+            U.post('shape: (min(n*r2, r1+m), n, r2)', p, z3.And(T.d0(h) == k, T.d1(h) == T.d1(g), T.d2(h) == T.d2(g)), axioms=AXQ, mode='ematch')
+            U.post('right-unfolding-has-orthonormal-rows', p, orthR(h), axioms=AXQ, mode='ematch')
+        qn, rn = _factors(p)
+        if qn is None or rn is None:
+            raise M.ContractMismatch('core_qr_rand(): no QR factorisation on this path')
+        stacked = T.hcat(T.unfL(g) if ltr else T.tr(T.unfR(g)), noise)
+        U.post('unfolding-of-the-result-times-R-is-the-unfolding-of-G-with-the-noise-columns-appended', p,
+               T.mm(T.unfL(h) if ltr else T.tr(T.unfR(h)), rn) == stacked, axioms=AXQ, mode='ematch')
+        U.canary('canary-rank-unchanged', p, (T.d2(h) if ltr else T.d0(h)) == other, axioms=AXQ)
+
+
+for _ltr in (True, False):
+    for _sk in ('int', 'none', 'generator'):
+        def _mk(ltr=_ltr, sk=_sk):
+            @unit('core.core_qr_rand.' + ('ltr' if ltr else 'rtl') + '.seed_' + sk, props=('C04', 'C10'))
+            def u(U):
+                _core_qr_rand_unit(U, ltr, sk)
+        _mk()
+
+
+# ----------------------------------------------------------------------------------------------
+# data.cache_to_data(cache={}): the cache of cross() as data arrays
+#
+# For a dict with m entries whose keys are tuples of w integers (insertion order s = 0..m-1) the function returns (I_data, y_data):
+#   m >= 1:  I_data is the (m, w) integer matrix with row s = key s;  y_data the float vector with y_data[s] = value of key s
+#            (same length, same order: row s of I_data belongs to y_data[s]);
+#   m = 0:   two empty 1-D arrays (np.array([], dtype=int) has shape (0,), not (0, w)).
+# The dict is not modified (C10: the DEFAULT dict `{}` is one object shared by all calls - case .default runs the function on the
+# default expression itself: it is still empty afterwards, so nothing is carried over to the next call); the arrays are new objects.
+# Not covered: keys of different lengths (NumPy builds a ragged / object array: outside the data model of the cache), non-numeric values.
+
+def _cache_unit(U, default):
+    fn = U.func('data', 'cache_to_data')
+    ex = U.executor(fn)
+    ex.core_cache = True
+    st = U.state()
+    if default:
+        dref = ex.ev(fn.defaults['cache'], st)              # the default expression of the signature, evaluated once: `{}`
+        U.post('default-is-the-empty-dict-literal', [], z3.BoolVal(isinstance(st.deref(dref), VRec) and not st.deref(dref).fields))
+        st.vars.update(cache=dref)
+        res = U.run(ex, st)
+    else:
+        K, V, m, w = z3.Const('K', X.KEYS), z3.Const('V', XA.RA), z3.Int('m'), z3.Int('w')
+        dref = st.alloc(X.VDict(K, w, V, m))
+        st.vars.update(cache=dref)
+        res = U.run(ex, st, pre=[m >= 0, w >= 1])
+        U.cover('precondition-satisfiable', U.pre)
+    seen = set()
+    s0 = z3.Int('s0')
+    for p, o in res:
+        if o.kind != 'return':
+            U.post('no-exception', p, False)
+            continue
+        ok = isinstance(o.value, VTuple) and len(o.value.items) == 2 and all(isinstance(p.deref(x), VArr) for x in o.value.items)
+        U.post('returns-a-pair-of-arrays', p, z3.BoolVal(ok))
+        if not ok:
+            continue
+        Iv, yv = [p.deref(x) for x in o.value.items]
+        d_ = p.deref(dref)
+        if default:
+            U.post('both-arrays-are-empty-1-D-arrays', p, z3.And(z3.BoolVal(Iv.ndim == 1 and yv.ndim == 1 and Iv.dtype == 'i'), Z(Iv.shape[0]) == 0, Z(yv.shape[0]) == 0))
+            U.post('default-dict-is-still-empty-and-was-never-written-to', p,
+                   z3.BoolVal(isinstance(d_, VRec) and not d_.fields and not p.ghost.get('dict_mutations')))
+            continue
+        U.post('dict-not-modified', p, z3.BoolVal(d_.writes == 0 and d_.keys is K and d_.vals is V and d_.n is m))
+        if Iv.ndim == 1:
+            seen.add('empty')
+            U.raise_iff('1-D-index-array-only-for-the-empty-dict', p, m == 0)
+            U.post('empty-dict-gives-two-empty-arrays', p, z3.And(Z(Iv.shape[0]) == 0, Z(yv.shape[0]) == 0, z3.BoolVal(Iv.dtype == 'i' and yv.ndim == 1)))
+            continue
+        seen.add('rows')
+        U.raise_iff('index-matrix-only-for-a-non-empty-dict', p, m >= 1)
+        ok = Iv.tag == 'idxbatch' and Iv.dtype == 'i' and yv.ndim == 1 and yv.tag == 'rvec' and yv.t is not None
+        U.post('integer-matrix-and-float-vector-with-known-entries', p, z3.BoolVal(ok))
+        if not ok:
+            continue
+        U.post('one-row-per-entry-one-column-per-index-and-one-value-per-entry', p, z3.And(Z(Iv.shape[0]) == m, Z(Iv.shape[1]) == w, Z(yv.shape[0]) == m))
+        U.post('row-s-is-key-s-and-y[s]-is-its-value (same order)', list(p.pc) + [0 <= s0, s0 < m], z3.And(Iv.t[s0] == K[s0], yv.t[s0] == V[s0]))
+        U.canary('canary-all-values-zero', list(p.pc) + [0 <= s0, s0 < m], yv.t[s0] == 0)
+    if not default:
+        U.post('both-cases-reached (empty / non-empty)', [], z3.BoolVal(seen == {'empty', 'rows'}))
+
+
+@unit('data.cache_to_data', props=('C10', 'C09'))
+def u_cache_to_data(U):
+    _cache_unit(U, False)
+
+
+@unit('data.cache_to_data.default', props=('C10',))
+def u_cache_to_data_default(U):
+    _cache_unit(U, True)
+
+
+# ----------------------------------------------------------------------------------------------
+# Hand-made mutants (MUT_BASE=/tmp/base tools/mut.sh <file> '<sed>' <units>) and the named obligation that reports each.
+# R(f, g) abbreviates the sed address '/^def f/,/^def g/' that restricts the edit to the function.
+#
+# act_one.interface.*          (act_one.py, inside R(interface, mean); unit suffixes: P-/Pm/Ps = no / per-mode / shared weights, i = index)
+#   s/phi\[k\] = Q @ phi\[k+1\]/phi[k] = Q @ phi[k]/                      safety array-operand-not-None, call-pre matmul-inner-dims-agree, inv-keep loop0.written-entries-are-scaled-partial-chains
+#   s/            Q = Q.T/            pass/                               (.ltr) call-pre matmul-inner-dims-agree, inv-keep loop0.written-entries-...
+#   s/            i = i\[::-1\]/            pass/                         (P-i / Pmi .ltr) safety mode-index-in-range, inv-keep loop0.written-entries-...
+#   s/P = P\[::-1\]/pass/                                                 (Pm-.ltr) call-pre einsum-contracted-dimensions-agree, inv-keep written-entries-...; (Pmi.ltr) safety array-index-in-range; Ps: quiet (a shared vector is not reversed)
+#   s/not isinstance(P\[0\], (int, float)):/True:/                        (Ps-.ltr / Psi.ltr) inv-keep loop0.written-entries-... (a shared weight vector would be reversed)
+#   s/Q = np.sum(Y\[k\], axis=1)/Q = np.sum(Y[k], axis=1) * 2/            (P--) inv-keep loop0.written-entries-...
+#   s/Q = Y\[k\]\[:, i\[k\], :\] \* p\[i\[k\]\]/Q = Y[k][:, i[k], :] * p[k]/   (Psi / Pmi) safety array-index-in-range, inv-keep loop0.written-entries-...
+#   s/phi\[k\] \/= np.linalg.norm(phi\[k\])/phi[k] \/= -np.linalg.norm(phi[k])/    (.linalg) inv-keep loop0.scale-factors-positive
+#   s/phi\[k\] \/= Y\[k\].shape\[1\]/phi[k] \/= Y[k].shape[0]/           (.natural) inv-keep loop0.natural: each pass divides the scale by the mode size of its core
+#   s/if norm.startswith('n')/if norm.startswith('l')/                    (.natural) inv-keep loop0.natural: ...;  s/startswith('l')/startswith('n')/  (.linalg) inv-keep loop0.linalg: every written vector but the start has 2-norm 1
+#   s/        phi = phi\[::-1\]/        pass/                             (.ltr) post vector-k-is-the-scaled-partial-chain, vector-k-has-length-r_k, start-of-the-sweep-is-exactly-[1]
+#   s/range(d-1, -1, -1)/range(d-1, 0, -1)/                               post no-entry-is-None, vector-k-is-the-scaled-partial-chain, scale-is-1, vector-k-has-length-r_k
+#   s/phi = \[None\] \* (d+1)/phi = [None] * d/                           inv-init loop0.list-of-d+1-entries, loop0.written-entries-...
+#   undecided: np.ones(1) * 2, np.dot(Q, phi[k+1]), reversed(range(d)), [None for _ in range(d+1)], np.sqrt(phi[k] @ phi[k]), Y[k].sum(axis=1)
+#   (Unsupported / ContractMismatch);  quiet (equivalent): phi[k] = phi[k] / np.linalg.norm(phi[k])
+# act_one.get_and_grad         (act_one.py, inside R(get_and_grad, get_many))
+#   s/phi_l\[:-1\], phi_r\[1:\]/phi_l[1:], phi_r[1:]/                     call-pre slice-assignment-shapes-agree, inv-keep loop0.processed-arrays-carry-the-outer-product-in-their-slice
+#   s/np.outer(p_l, p_r)/np.outer(p_r, p_l)/                              the same two
+#   s/value = phi_r\[0\].item()/value = phi_r[-1].item()/                 post value-is-the-chained-entry
+#   s/Q\[:, k, :\] = /Q[:, 0, :] = /                                      inv-keep loop0.processed-arrays-carry-...
+#   s/norm=None, ltr=True/norm=None, ltr=False/                           inv-keep loop0.processed-arrays-carry-..., post two-interface-sweeps-over-the-arguments
+#   s/np.zeros(G.shape)/np.ones(G.shape)/                                 inv-init loop0.other-arrays-still-zero
+#   undecided: interface(Y, i=i, ltr=False) without norm=None (no call-site contract);  quiet (harmless): return value, [G for G in grad]
+# svd.svd_matrix               (svd.py, inside R(svd_matrix, svd_incomplete))
+#   s/np.hstack((ind1, ind2))/np.hstack((ind2, ind1))/                    post permutation: prm[2k] = k and prm[2k+1] = q + k, permutation (position form)
+#   s/ind2 = np.arange(q, 2\*q)/ind2 = np.arange(q, 2*q-1)/               call-pre hstack-rows-agree
+#   s/Z_full = Z_full.transpose(prm)/pass/                                post svd-receives: F-reshape to q modes <- transpose(prm) <- ...
+#   s/return svd(Z_full, e, r)/return svd(Z_full, r, e)/                  post thresholds-of-the-caller-are-handed-on
+#   s/reshape(\[4\]\*q, order='F')/reshape([4]*q)/                         post svd-receives: ...
+#   s/q = int(np.log2(Y_full.shape\[0\]))/... + 1/                        post q-is-the-exponent-of-the-matrix-size (refuted)
+# transformation.full_matrix   (transformation.py, inside R(full_matrix, orthogonalize))
+#   s/prm = np.arange(2\*q).reshape(2, -1, order='F').reshape(-1)/prm = np.arange(2*q)/   post permutation: prm'[k] = 2k ..., permutation (position form)
+#   s/reshape(2\*\*q, 2\*\*q, order='F')/reshape(2**q, 2**q, order=order)/   post order=C: result: F-reshape to a matrix <- ...
+#   s/Z.reshape(\[2, 2\]\*q, order=order)/Z.reshape([2, 2]*q, order='C')/   post order=F: result: ... <- reshape(order) to 2q axes <- full(Y)
+#   s/reshape(2\*\*q, 2\*\*q, order='F')/reshape(2**q, 2*q, order='F')/     post result-is-a-2^q-x-2^q-matrix
+#   undecided: reshape(-1, 2).reshape(-1) (Unsupported)
+# core.core_dot.*              (core.py, inside R(core_dot(, core_dot_inv))
+#   s/G = G @ R if ltr else R @ G/G = G @ R.T if ltr else R @ G/          (.ltr) call-pre matmul-inner-dims-agree, post unfolding-is-the-product-with-R, every-mode-slice-is-multiplied-by-R
+#   s/G = G @ R if ltr else R @ G/G = R @ G if ltr else G @ R/            call-pre matmul-inner-dims-agree, reshape-preserves-size
+#   s/R = np.array(\[\[R\]\]) if/R = np.array([[2*R]]) if/                (.number) post unfolding-is-the-product-with-R, every-mode-slice-..., a-number-scales-every-slice
+#   s/(r1\*n, r2) if ltr else (r1, n\*r2)/(r1, n*r2) if ltr else (r1*n, r2)/   call-pre matmul-inner-dims-agree, reshape-preserves-size
+#   s/(r1, n, G.shape\[1\]) if ltr else/(r1, n, G.shape[1]) if not ltr else/   call-pre reshape-preserves-size
+# core.core_dot_inv.*          (core.py, inside R(core_dot_inv, core_dot_maxvol))
+#   s/np.linalg.solve(R.T, G.T).T if ltr/np.linalg.solve(R, G.T).T if ltr/    (.ltr) post unfolding-times-R-..., every-mode-slice-times-R-..., one-linear-solve-with-R
+#   s/else np.linalg.solve(R, G)/else np.linalg.solve(R.T, G)/            (.rtl) the same three
+#   s/_reshape(G, (r1, n, r2))/_reshape(G, (r1, r2, n))/                  (.rtl) post shape-of-the-argument, every-mode-slice-times-R-...
+#   s/(r1\*n, r2) if ltr else (r1, n\*r2)/(r1*n, r2) if not ltr else (r1, n*r2)/   (.ltr) call-pre solve-right-hand-side-rows-agree, post unfolding-times-R-...
+#   undecided: solve(R.T, G.T) without the final .T (a size-preserving reshape outside the unfolding patterns: Unsupported)
+# core.core_dot_maxvol.*       (core.py, inside R(core_dot_maxvol, core_qr_rand))
+#   s/_maxvol(G.T if ltr else G)\[0\]/_maxvol(G if ltr else G.T)[0]/      safety selection-indices-in-range, post index-vector-comes-from-one-default-call-of-_maxvol-...
+#   s/G\[:, ind\] if ltr else G\[ind, :\]/G[ind, :] if ltr else G[:, ind]/   safety selection-indices-in-range, post matrix-is-the-selection-..., matrix-shape
+#   s/core_dot(G, R, ltr)/core_dot(G, R, not ltr)/                        call-pre core_dot: positive dimensions and matching bond, post one-call-of-core_dot-...
+#   s/if ind is None else ind/if ind is not None else ind/                safety operand-not-None; (.ind) post given-index-vector-is-handed-back-and-maxvol-is-not-called
+#   s/(r1, n\*G.shape\[-1\]) if ltr else (G.shape\[0\]\*n, r2)/(r1*n, G.shape[-1]) if ltr else (G.shape[0], n*r2)/   post matrix-is-the-selection-..., matrix-shape, number-of-positions-...
+#   s/    return G, ind/    return G, None/                               post returns-(matrix, index-vector)
+# core.core_qr_rand.*          (core.py, inside R(core_qr_rand, core_qtt_to_tt))
+#   s/teneva._rand(seed)/teneva._rand(None)/                              post seed-goes-through-_rand-exactly-once, a-generator-object-is-used-as-it-is
+#   s/rand.normal(size=/np.random.normal(size=/                           post the-draw-comes-from-the-generator-returned-by-_rand (draw logged with generator "global")
+#   s/(r1\*n if ltr else n\*r2, m)/(r1*n if ltr else n*r2, m+1)/           post the-draw-has-one-row-per-row-of-the-unfolding-and-m-columns, shape: ...
+#   s/np.hstack((G, rnd))/np.hstack((rnd, G))/                            post unfolding-of-the-result-times-R-is-the-unfolding-of-G-with-the-noise-columns-appended
+#   s/G, _ = np.linalg.qr(G)/_, G = np.linalg.qr(G)/                      call-pre reshape-preserves-size
+# data.cache_to_data[.default] (data.py, from '/^def cache_to_data/' to the end)
+#   s/return I_data, y_data/return y_data, I_data/                        raise-iff 1-D-index-array-only-for-the-empty-dict, post empty-dict-gives-two-empty-arrays
+#   s/    return I_data, y_data/    cache.clear()\n    return I_data, y_data/     post dict-not-modified; (.default) post default-dict-is-still-empty-and-was-never-written-to
+#   s/    return I_data, y_data/    cache['n'] = len(y_data)\n    return .../      the same two
+#   s/\[y for y in cache.values()\]/[y for y in cache.values()][::-1]/    post row-s-is-key-s-and-y[s]-is-its-value (same order)
+#   s/\[y for y in cache.values()\]/[y for y in cache.values()][1:]/      safety slice-in-range, post one-row-per-entry-..., row-s-is-key-s-...
+#   s/np.array(\[y for y in cache.values()\])/np.array([y for y in cache.keys()])/   post integer-matrix-and-float-vector-with-known-entries
+#   undecided: keys built from cache.values() with dtype=int (Unsupported)
